@@ -344,6 +344,8 @@ impl<'a> Mk<'a> {
         match self.vclass {
             "scalar1" => 1,
             "scalar_rm1" => -1,
+            // 128: the byte-OR of the encoding is 0x80, the edge of the constant-time zero test
+            "scalar80" => 128,
             _ => 1000 + (self.seed % 1000) as i64,
         }
     }
@@ -413,7 +415,7 @@ macro_rules! subjects {
         $mac!("ProofCommitmentSecret", ProofCommitmentSecret<$c>, |m: &Mk| ProofCommitmentSecret::<$c>(m.sk::<$c>().0));
         $mac!("ProofCommitmentChallenge", ProofCommitmentChallenge<$c>, |m: &Mk| ProofCommitmentChallenge::<$c>(m.sk::<$c>().0));
         $mac!("ProofOfKnowledge", ProofOfKnowledge<$c>, |m: &Mk| { let (u, v) = (m.pt_s::<$c>(), m.pt_s::<$c>().double()); match m.variant { "Basic" => ProofOfKnowledge::<$c>::Basic { u, v }, "Aug" => ProofOfKnowledge::MessageAugmentation { u, v }, _ => ProofOfKnowledge::ProofOfPossession { u, v } } });
-        $mac!("ProofOfKnowledgeTimestamp", ProofOfKnowledgeTimestamp<$c>, |m: &Mk| { let (u, v) = (m.pt_s::<$c>(), m.pt_s::<$c>().double()); ProofOfKnowledgeTimestamp::<$c> { proof: match m.variant { "Basic" => ProofOfKnowledge::Basic { u, v }, "Aug" => ProofOfKnowledge::MessageAugmentation { u, v }, _ => ProofOfKnowledge::ProofOfPossession { u, v } }, timestamp: match m.vclass { "empty" => 0, "large" => u64::MAX, _ => 1_700_000_000_123 } } });
+        $mac!("ProofOfKnowledgeTimestamp", ProofOfKnowledgeTimestamp<$c>, |m: &Mk| { let (u, v) = (m.pt_s::<$c>(), m.pt_s::<$c>().double()); ProofOfKnowledgeTimestamp::<$c> { proof: match m.variant { "Basic" => ProofOfKnowledge::Basic { u, v }, "Aug" => ProofOfKnowledge::MessageAugmentation { u, v }, _ => ProofOfKnowledge::ProofOfPossession { u, v } }, timestamp: match m.vclass { "empty" => 0, "large" => u64::MAX, "one" => (1u64 << 53) + 1, _ => 1_700_000_000_123 } } });
         $mac!("SecretKeyShare", SecretKeyShare<$c>, |m: &Mk| mk_sks::<$c>(m));
         $mac!("PublicKeyShare", PublicKeyShare<$c>, |m: &Mk| mk_pks::<$c>(m));
         $mac!("SignatureShare", SignatureShare<$c>, |m: &Mk| { let mut b = vec![0u8, m.share_id()]; b.extend_from_slice(&enc_s::<$c>(&m.pt_s::<$c>())); let s = SignatureShare::<$c>::try_from(b.as_slice()).expect("share container"); let raw = *s.as_raw_value(); match m.variant { "Basic" => SignatureShare::Basic(raw), "Aug" => SignatureShare::MessageAugmentation(raw), _ => SignatureShare::ProofOfPossession(raw) } });
